@@ -126,13 +126,13 @@ func dmaMain(c *Ctx) {
 	}
 	// every source page 00-F1
 	for p := 0; p <= 0xf1; p++ {
-		if !c.Thorough() && p%3 != 0 && p != 0xf1 && p != 0xe0 && p != 0xdf && p != 0x7f && p != 0x80 && p != 0x9f && p != 0xa0 && p != 0xbf && p != 0xc0 {
+		if !c.Thorough() && p%2 != 0 && p != 0xf1 && p != 0xe0 && p != 0xdf && p != 0x7f && p != 0x80 && p != 0x9f && p != 0xa0 && p != 0xbf && p != 0xc0 {
 			continue
 		}
 		add(dmaJob{page: p, lcdOff: p%2 == 0, restarts: rng.Intn(2), mutate: p >= 0xc0 && rng.Intn(2) == 0})
 	}
 	// restarts at every cycle of the transfer for three pages
-	step := 7
+	step := 3
 	if c.Thorough() {
 		step = 1
 	}
